@@ -12,7 +12,7 @@ LEVEL = 'model_checking'
 RULE = ('seed sentences: EVERY clause or directive of the documented grammar with <= N tokens over one representative '
         'per token class, every two-clause program built from the clauses of <= 4 tokens, and the repository\'s sample '
         'files; for each seed EVERY single edit: delete / duplicate token i, swap tokens i,i+1, replace token i by the '
-        'other members of its class, insert each of the 21 token kinds and each of 14 foreign character sequences at '
+        'other members of its class, insert each of the 21 token kinds and each of 32 foreign character sequences (ASCII and non-ASCII look-alikes of lexicon characters) at '
         'every position, truncate at every character offset, append every proper prefix of another seed after the final '
         'full stop. RefGrammar (independent lexer + recogniser transcribed from prolog.g4) decides membership: outside '
         'the language => compile_prolog_from_string must raise; inside => it raises or returns code whose module-level '
@@ -22,7 +22,12 @@ ASSUMPTIONS = ['RefGrammar is a manual transcription of prolog.g4 (EOF required 
                'with the generated lexer+parser run in strict mode is measured on every text and reported',
                'only single edits of bounded seeds are covered']
 
-FOREIGN = ['#', '$', '&', '?', '"', '\\', '{', '}', '~', '^', '@', "'", '% comment without newline', '*']
+FOREIGN = ['#', '$', '&', '?', '"', '\\', '{', '}', '~', '^', '@', "'", '% comment without newline', '*',
+           # characters outside ASCII that are not in the lexicon although something similar is: no-break and
+           # ideographic space, full-width punctuation (incl. the comment character), a ligature, a superscript
+           # digit, zero-width space, byte-order mark, line/paragraph separators, NEL, a combining accent
+           '\u00a0', '\u3000', '\uff08', '\uff09', '\uff0e', '\uff0c', '\uff05', '\ufb01', '\u00b2', '\u200b', '\ufeff',
+           '\u2028', '\u2029', '\u0085', '\u0301', '\uff41', '\uff21', '\uff11']
 CLASS_MEMBERS = {'ATOM': ['b', 'a_B1', '_'], 'VARIABLE': ['_', 'Y', '_G1'], 'NUMERAL': ['00', '42'],
                  'STRING': ["''", "'it\\'s'", "'two words'"], 'UNOP': ['+'], 'BINOP': ['\\=', '==', '=<', '>=', '<', '\\==']}
 IDENT = re.compile(r'[A-Za-z_][A-Za-z0-9_]*\Z')
